@@ -193,6 +193,8 @@ class G:
                 return kids
             return [child() for _ in range(r.choice([0, 1, 1, 2, 3]))]
 
+        if k == "PackageBuilder" and r.chance(1, 3):
+            return {"t": k, "ch": chs(), "default": True}       # PackageBuilder::default() instead of ::new()
         if k in ("Package", "PackageBuilder"):
             return {"t": k, "ch": chs()}
         if k == "VarPackage":
@@ -434,6 +436,7 @@ def with_equal_children(p, rng):
             for v in x:
                 walk(v)
     walk(q["tree"])
+    q["share"] = True        # equal sub-trees are built once: the SAME object sits in several places (native build)
     if "tag" in q:
         q["tag"] = "equal/" + q["tag"]
     return q
